@@ -360,6 +360,7 @@ func (e *v16Echo) OnRemoteClose() {}
 
 func v16NewListener(path string) (*Listener, error) {
 	cfg := NewDefaultListenerConfig(path, "unix")
+	cfg.InitializeTimeout = 5 * time.Second
 	l, err := NewListener(v16Listen{}, cfg)
 	if err != nil {
 		return nil, err
@@ -369,7 +370,19 @@ func v16NewListener(path string) (*Listener, error) {
 	return l, nil
 }
 
-func v16NewScn(name string, n int, seed uint64, rebuild time.Duration) (*v16Scn, error) {
+// the handshake of a new session occasionally times out on a loaded machine; that says nothing about the
+// property: the scenario is set up again, a few times at most
+func v16NewScn(name string, n int, seed uint64, rebuild time.Duration) (sc *v16Scn, err error) {
+	for attempt := 0; attempt < 4; attempt++ {
+		if sc, err = v16NewScnOnce(name, n, seed, rebuild); err == nil {
+			return sc, nil
+		}
+		time.Sleep(time.Duration(200*(attempt+1)) * time.Millisecond)
+	}
+	return nil, err
+}
+
+func v16NewScnOnce(name string, n int, seed uint64, rebuild time.Duration) (*v16Scn, error) {
 	pid := os.Getpid()
 	sc := &v16Scn{name: name, n: n, t0: time.Now(), rng: newVrand(seed),
 		path:   fmt.Sprintf("/tmp/v16_%d_%s.sock", pid, name),
@@ -389,6 +402,9 @@ func v16NewScn(name string, n int, seed uint64, rebuild time.Duration) (*v16Scn,
 	conf.QueuePath = sc.prefix + "_queue"
 	conf.ShareMemoryBufferCap = 4 << 20
 	conf.rebuildInterval = rebuild
+	if conf.InitializeTimeout < 5*time.Second {
+		conf.InitializeTimeout = 5 * time.Second
+	}
 	if sc.sm, err = NewSessionManager(conf); err != nil {
 		sc.oldL.Close()
 		return nil, err
